@@ -372,6 +372,8 @@ class Program(object):
                         for k, v in zip(e.keys, e.values))
         if isinstance(e, ast.Name):
             return self.const_value(m.name, e.id, depth + 1)
+        if isinstance(e, ast.Attribute) and isinstance(e.value, ast.Name) and e.value.id in m.aliases:
+            return self.const_value(m.aliases[e.value.id], e.attr, depth + 1)
         if isinstance(e, ast.BinOp) and isinstance(e.op, ast.Add):
             return self._eval(m, e.left, depth + 1) + self._eval(m, e.right, depth + 1)
         if isinstance(e, ast.Call) and isinstance(e.func, ast.Name) and e.func.id in ('list', 'dict') \
